@@ -437,6 +437,7 @@ def recording(rec):
                     return orig(self, filename, *a, **kw)
                 f = rec.fid(self)
                 est0, ax0, d0 = rec.est(self), rec.axes(self), _dig(self.data)
+                d32 = _dig(np.asarray(self.data).astype(np.float32))
                 meta = dict(self.metadata) if isinstance(getattr(self, "metadata", None), dict) else None
                 ret, exc = outer(lambda: orig(self, filename, *a, **kw))
                 k = rec.pkey(filename if fmt != "npy" or str(filename).endswith(".npy") else str(filename) + ".npy")
@@ -446,6 +447,7 @@ def recording(rec):
                 rec.events.append({"e": "Save", "src": "save_" + fmt, "fid": f, "fmt": fmt, "path": k, "gen": gen,
                                    "st": "ok" if ok else type(exc).__name__, "before": est0, "after": rec.est(self),
                                    "dig0": d0, "dig1": _dig(self.data), "axes_same": rec.axes_same(ax0, rec.axes(self)),
+                                   "pix32_same": bool(d32 == _dig(np.asarray(self.data).astype(np.float32))),
                                    "meta_same": bool(meta is None or meta == self.metadata),
                                    "sig": _sig(self, fmt) if ok and fmt in ("fil", "h5", "pickle") else NOSIG})
                 if exc is not None:
